@@ -386,7 +386,7 @@ def rule_disp(ctx):
               "the base initiate_send must run under the same lock as sendData's append (found %s vs %s)" % (L2, sorted(x for x in guards.values() if x)), "one lock: %s" % L2)
     # a connection never inherits output of the previous one: the network layer creates a fresh dispatcher for every
     # connection (the asyncore out_buffer survives close()), on a node that dominates the connect call
-    # - by abstract execution: createConnection run twice on one network layer connects two different dispatcher objects,
+    # - by abstract execution: two connections in a row on one network layer (connect, closed, connect) use two different dispatcher objects,
     # each made during that call
     cc = repo.method(NET, "YowNetworkLayer", "createConnection")
     from ..absint import Interp, _Raise
@@ -407,7 +407,11 @@ def rule_disp(ctx):
     problem = None
     seen_before = []
     try:
-        for _ in range(2):
+        for round_ in range(2):
+            if round_:
+                # the first connection ends: the dispatcher reports the close (a connect request is honoured only when
+                # no connection exists)
+                it.method_call(layer, "onDisconnected", [], {}, {"@module": net.module, "@owner": net}, 0, None)
             seen_before.append(layer[1].fields.get("_dispatcher"))
             it.method_call(layer, "createConnection", [], {}, {"@module": net.module, "@owner": net}, 0, None)
     except _Raise as x:
